@@ -509,6 +509,15 @@ def C08_releaseOK (contract : String) (s : State) (id : String) (r : Response) (
 
 /-! ## C09 fee exactness -/
 
+/-- C09 at entry: the fee sent with an admitted bid is the configured rate × price × size,
+    halves away from zero, in the quote denomination -/
+def C09_entryOK (s : State) (fee : Option Coin) (price quote : String) (qs size : Nat) : Bool :=
+  match Dec.parse price, bidRate s.info with
+  | some p, some rate =>
+    product p size == qs && admissibleFee rate qs == some (feeAmt fee) &&
+    (match fee with | some f => f.denom == quote | none => true)
+  | _, _ => false
+
 /-- `held` is the integer nearest to `F·q/Q`; at an exact half-unit tie either neighbour -/
 def nearestFee (F Q q held : Nat) : Bool :=
   -- |held·Q − F·q| ≤ Q/2   ⇔   2·|held·Q − F·q| ≤ Q
@@ -700,6 +709,15 @@ def C15_entryOK (windowed : Bool) (e e' : BidEntry) : Bool :=
          (b.remBase, b.remQuote, b.remFee) == v2Remaining old
        | .v2 _ => false)
     else e' == e
+
+/-- C09 across the format conversion: the fee a converted bid still holds is its original fee
+    minus every fee share its event log records (fills, refunds and rejects alike), so the
+    fees of its whole life still add up to the fee escrowed -/
+def C09_migrateFeeOK (s s' : State) : Bool :=
+  s.bids.all fun kv =>
+    match kv.2, s'.bids.get? kv.1 with
+    | .v2 old, some (.v3 b) => b.fee == old.fee && b.remFee == (v2Remaining old).2.2
+    | _, _ => true
 
 def C15_bidsOK (s s' : State) : Bool :=
   s'.bids.keys == s.bids.keys &&
